@@ -185,15 +185,63 @@ func emit(c *caseWriter, name string, in ...string) {
 	if !ok || d.nin != len(in) {
 		panic("bad stream use: " + name)
 	}
+	// a panic that escapes a stream's exec function (the functions under test are total) becomes a case of
+	// the pseudo stream implpanic, which the driver reports as a specification failure with this input
+	run := func() {
+		defer func() {
+			if r := recover(); r != nil {
+				if name == "implpanic" {
+					panic(r)
+				}
+				enc := []string{name}
+				for _, x := range in {
+					enc = append(enc, hx(x))
+				}
+				msg := fmt.Sprint(r)
+				if len(msg) > 160 {
+					msg = msg[:160]
+				}
+				c.Case("implpanic", hx(strings.Join(enc, ",")), hx(msg))
+			}
+		}()
+		d.exec(c, in)
+	}
 	if pureStreams[name] && !inReplay && c.capture == nil && len(emitLog) < emitLogCap {
 		var keys []string
 		c.capture = &keys
-		d.exec(c, in)
+		run()
 		c.capture = nil
 		emitLog = append(emitLog, emitRec{name, append([]string(nil), in...), strings.Join(keys, "\n")})
 		return
 	}
-	d.exec(c, in)
+	run()
+}
+
+func init() {
+	// implpanic <stream,hexinput,...>: re-runs the stream on the inputs (replay of a recorded panic)
+	reg("implpanic", 1, func(c *caseWriter, in []string) {
+		parts := strings.Split(in[0], ",")
+		d, ok := streams[parts[0]]
+		if !ok || d.nin != len(parts)-1 {
+			return
+		}
+		var ins []string
+		for _, p := range parts[1:] {
+			ins = append(ins, unhx(p))
+		}
+		func() {
+			defer func() {
+				if r := recover(); r != nil {
+					msg := fmt.Sprint(r)
+					if len(msg) > 160 {
+						msg = msg[:160]
+					}
+					c.Case("implpanic", hx(in[0]), hx(msg))
+				}
+			}()
+			d.exec(c, ins)
+		}()
+	})
 }
 
 // guard runs f, mapping a panic to outcome "panic".
